@@ -1,6 +1,7 @@
 package props
 
 import (
+	restful "github.com/emicklei/go-restful/v3"
 	"strconv"
 	"strings"
 	"testing"
@@ -33,6 +34,15 @@ func genC17(t *rapid.T) RoutingCase {
 	c.Table = gen.Table(t, cfg)
 	if rapid.IntRange(0, 4).Draw(t, "defaultcontainer") == 0 {
 		c.Extra = map[string]int64{"default_container": 1}
+	}
+	if rapid.IntRange(0, 4).Draw(t, "corsinfront") == 0 {
+		// a CORS filter in front of the OPTIONS filter (not needed, says the documentation, not
+		// forbidden either): an OPTIONS request that is no preflight passes it and is answered
+		// by the OPTIONS filter as ever
+		if c.Extra == nil {
+			c.Extra = map[string]int64{}
+		}
+		c.Extra["cors_in_front"] = 1
 	}
 	if rapid.IntRange(0, 3).Draw(t, "lateroute") == 0 {
 		if c.Extra == nil {
@@ -199,6 +209,13 @@ func checkC17(c RoutingCase) (vs []*Violation) {
 	// a fifth of the cases use the package-level DefaultContainer and restful.OPTIONSFilter()
 	asDefault := c.Extra["default_container"] == 1
 	optB := &harness.Options{Router: c.Router, OptionsFilter: true, AsDefault: asDefault}
+	corsInFront := c.Extra["cors_in_front"] == 1
+	if corsInFront {
+		optB.Setup = func(ct *restful.Container) {
+			cors := restful.CrossOriginResourceSharing{AllowedDomains: []string{"http://a.com"}, CookiesAllowed: true, Container: ct}
+			ct.Filter(cors.Filter)
+		}
+	}
 	filt, p2 := buildWith(c.Table, optB, recB, true)
 	if p1 != nil || p2 != nil {
 		return []*Violation{viol("", "building the table panicked: %v / %v", p1, p2)}
@@ -247,7 +264,11 @@ func checkC17(c RoutingCase) (vs []*Violation) {
 				}
 			}
 			// the OPTIONS filter
-			oo := harness.Do(filt, recB, model.ReqSpec{Method: "OPTIONS", Path: u.Path, Headers: u.Headers}, harness.ViaDispatch, strconv.Itoa(i)+"opt")
+			oh := u.Headers
+			if corsInFront {
+				oh = append(append([]model.H{}, u.Headers...), model.H{K: "Origin", V: "http://a.com"})
+			}
+			oo := harness.Do(filt, recB, model.ReqSpec{Method: "OPTIONS", Path: u.Path, Headers: oh}, harness.ViaDispatch, strconv.Itoa(i)+"opt")
 			if oo.Panic != "" {
 				vs = append(vs, viol("", "%s: OPTIONS with the filter panicked: %s", where, oo.Panic))
 				continue
